@@ -1,14 +1,14 @@
 SPECIFICATION Spec
 CONSTANTS
-  Leaves <- LvAll
-  ULeaves = {}
-  Bigs = {}
-  UnOps = {"+", "-", "~", "!"}
-  Casts = {"int", "bool", "char", "short"}
+  Leaves <- LvTyped
+  ULeaves = {0, 2, 2147483647}
+  Bigs = {"2147483648", "4294967295u", "0x80000000"}
+  UnOps = {"-", "~", "!"}
+  Casts = {"int"}
   BinOps = {"*", "/", "%", "+", "-", "<<", ">>", "<", ">", "<=", ">=", "==", "!=", "&", "^", "|", "&&", "||"}
   UseCond = TRUE
-  MaxTok = 9
-  MaxDepth = 4
+  MaxTok = 4
+  MaxDepth = 2
 INVARIANT EvalTotal
 INVARIANT DivModLaw
 INVARIANT ShiftLaw
